@@ -36,3 +36,13 @@ MUTANTS = [
  ('C07', 'back/favor_compile_time.hpp', r'tofill\[state_id\+1\]\.one_state\.push_front\(call_no_transition\);', 'tofill[state_id+1].one_state.push_back(call_no_transition);', 'dispatch_table.construct', ''),
  ('C18', 'back/favor_compile_time.hpp', r'res = self->process_event_internal\(', 'self->process_event_internal(', 'process_any_event_helper', ''),
 ]
+
+# harmless edits (renamed local, reordered independent statements, loop style, added comment): every check of the named properties must
+# stay green on them - a red check here would be a false alarm waiting to happen (brittle contract / extraction).  (header, [(regex, repl)], properties)
+HARMLESS = [
+ ('back/state_machine.hpp', [(r'HandledEnum handled = this->do_process_helper<Event>\(', 'HandledEnum outcome = this->do_process_helper<Event>('), (r'eventless_helper\(this,\(HANDLED_TRUE & handled\)\);', 'eventless_helper(this,(HANDLED_TRUE & outcome));'),
+    (r'source,handled,\n', 'source,outcome,\n'), (r'            return handled;\n        \}\n    \}', '            return outcome;\n        }\n    }')], ['C04', 'C10', 'C11', 'C12']),
+ ('back/dispatch_table.hpp', [(r'HandledEnum res = first_row::execute', '/* try the first row */ HandledEnum res = first_row::execute')], ['C01']),
+ ('backmp11/detail/state_machine_base.hpp', [(r'(\n        m_running = true;\n        m_event_processing = true;\n)', '\n        m_event_processing = true;\n        m_running = true;\n')], ['C02']),
+ ('back/history_policies.hpp', [(r'for \(int i=0; i<NumberOfRegions;\+\+i\)', 'for (int i = 0; i < NumberOfRegions; i++)')], ['C08']),
+]
